@@ -58,6 +58,8 @@ def main(argv=None):
         s.setdefault("seed", seed)
     shards.sort(key=lambda s: -float(s.get("cost", 1.0)))
     budget = float(getattr(drv, "BUDGET", {}).get(args.tier, 900 if args.tier == "quick" else 7200))
+    for s in shards:
+        s.setdefault("deadline", t0 + budget)  # absolute: exploration loops stop at the last completed bound and say so
 
     results, errors, capped = [], [], 0
     nwork = max(1, min(args.workers, len(shards)))
